@@ -5,7 +5,7 @@
 package store
 
 // The abstract content of the map-backed store: index -> weight (absent = 0).
-//@ fun MView(s *SparseStore, k int) real := s.counts[k]
+//@ vfun MView(s *SparseStore, k int) real := s.counts[k]
 //@ fun MTot(s *SparseStore) real := SetSum(vals(s.counts), dom(s.counts))
 // every stored weight is positive, keys are 32-bit indexes
 //@ pred MInv(s *SparseStore) := s.counts != nil && (forall k int :: has(s.counts, k) ==> s.counts[k] > 0.0 && in32(k))
@@ -59,15 +59,17 @@ package store
 //@ func SparseStore.MaxIndex
 //@   serves C04 C12
 //@   requires MInv(s)
-//@   ensures empty: (forall k int :: !has(s.counts, k)) ==> result1 != nil
-//@   ensures max: (exists k int :: has(s.counts, k)) ==> result1 == nil && has(s.counts, result) && (forall k int :: has(s.counts, k) ==> k <= result)
+//@   ensures empty: MTot(s) == 0.0 ==> result1 != nil
+//@   ensures max: MTot(s) > 0.0 ==> result1 == nil && has(s.counts, result) && (forall k int :: has(s.counts, k) ==> k <= result)
+//@   hint SetSumOfEmpty(vals(s.counts), dom(s.counts)), SetSumPosEx(vals(s.counts), dom(s.counts))
 //@   loop 1 invariant (forall k int :: $visited[k] ==> has(s.counts, k) && k <= maxIndex) && ((maxIndex == 0 - 9223372036854775808 && (forall k int :: !$visited[k])) || $visited[maxIndex])
 
 //@ func SparseStore.MinIndex
 //@   serves C04 C12
 //@   requires MInv(s)
-//@   ensures empty: (forall k int :: !has(s.counts, k)) ==> result1 != nil
-//@   ensures min: (exists k int :: has(s.counts, k)) ==> result1 == nil && has(s.counts, result) && (forall k int :: has(s.counts, k) ==> result <= k)
+//@   ensures empty: MTot(s) == 0.0 ==> result1 != nil
+//@   ensures min: MTot(s) > 0.0 ==> result1 == nil && has(s.counts, result) && (forall k int :: has(s.counts, k) ==> result <= k)
+//@   hint SetSumOfEmpty(vals(s.counts), dom(s.counts)), SetSumPosEx(vals(s.counts), dom(s.counts))
 //@   loop 1 invariant (forall k int :: $visited[k] ==> has(s.counts, k) && minIndex <= k) && ((minIndex == 9223372036854775807 && (forall k int :: !$visited[k])) || $visited[minIndex])
 
 //@ func SparseStore.Clear
@@ -98,3 +100,17 @@ package store
 //@   modifies s.counts
 //@   loop 1 invariant w > 0.0 && s.counts == old(s.counts) && (forall k int :: (has(s.counts, k) <==> old(has(s.counts, k))) && s.counts[k] == ($visited[k] ? w * old(s.counts[k]) : old(s.counts[k]))) && (forall k int :: $visited[k] ==> has(s.counts, k))
 //@   hint SetSumScale(old(vals(s.counts)), vals(s.counts), dom(s.counts), w), SetSumCong(old(vals(s.counts)), old(vals(s.counts)), old(dom(s.counts)), dom(s.counts))
+
+//@ fun MViewArr(s *SparseStore) array_real := lambda k int :: MView(s, k)
+//@ func SparseStore.MergeWith
+//@   serves C04 C02
+//@   requires MInv(s) && SInv(store) && disjoint(s, store)
+//@   ensures MInv(s) && SInv(store) && s.counts == old(s.counts)
+//@   ensures view: forall k int :: MView(s, k) == old(MView(s, k)) + old(SView(store, k))
+//@   ensures total: MTot(s) == old(MTot(s)) + old(STot(store)) using STotIsTot(store), SetTot(vals(s.counts), dom(s.counts), MViewArr(s)), SetTot(old(vals(s.counts)), old(dom(s.counts)), old(MViewArr(s))), TotAdd(old(MViewArr(s)), SViewArr(store), MViewArr(s))
+//@   ensures arg: STot(store) == old(STot(store)) && (forall k int :: SView(store, k) == old(SView(store, k)))
+//@   ensures stable: footprintStable(store)
+//@   modifies s.counts, footprint(store)
+//@   foreach 1 invariant !stopped && MInv(s) && SInv(store) && disjoint(s, store) && s.counts == old(s.counts) && footprintStable(store)
+//@   foreach 1 invariant forall k int :: MView(s, k) == old(MView(s, k)) + (visited[k] ? SView(store, k) : 0.0)
+//@   foreach 1 invariant STot(store) == old(STot(store)) && (forall k int :: SView(store, k) == old(SView(store, k)))
